@@ -297,6 +297,12 @@ def get_used_or_defined_symbols(routine):
             used_or_defined_array_shapes + local_var_shapes
         )
 
+        # Loop induction variables are local to their loop in the dataflow
+        # analysis, but their declarations are still required
+        used_or_defined_symbols |= OrderedSet(
+            loop.variable for loop in FindNodes(ir.Loop).visit(routine.body)
+        )
+
         used_or_defined_symbols |= OrderedSet(
             variable_map.get(v.name_parts[0], v).clone(dimensions=None)
             for v in used_or_defined_symbols
